@@ -8,7 +8,10 @@ Record c15_case := { c15_ana : ana_obs; c15_runs : list (gty * bool) (* type, th
 
 Definition chk (c : c15_case) : bool :=
   let nodes := ao_nodes (c15_ana c) in
-  forallb (fun tb => Bool.eqb (returns nodes (S (List.length nodes)) (fst tb)) (snd tb)) (c15_runs c).
+  (* [returns] evaluated level by level (Properties/C15.v: C15_levels_compute_returns), under its two premises *)
+  calls_closed nodes
+  && forallb (fun tb => existsb (gty_eqb (fst tb)) (positions nodes)
+                        && Bool.eqb (returns_level nodes (S (List.length nodes)) (fst tb)) (snd tb)) (c15_runs c).
 
 (** the property itself: every function returned *)
 Definition chk_prop (c : c15_case) : bool := forallb snd (c15_runs c).
